@@ -190,9 +190,9 @@ class Evaluator:
                 return "none"
             return type(v).__name__
         if h == "setof" and len(t) == 3:
-            return ("frozenset", None)
+            return ("frozenset", self.elem_type(t))
         if h in ("union", "inter", "diff", "setof", "setlit", "empty"):
-            return ("set", None)
+            return ("set", self.elem_type(t))
         if h == "tuplelit":
             return ("tuple", None)
         if h == "listlit":
@@ -204,7 +204,9 @@ class Evaluator:
         if h == "slice":
             return self.typeof(t[1])
         if h == "comp":
-            return {"set": ("set", None), "list": ("list", None), "gen": ("iter", None), "dict": ("dict", None, None)}[t[1]]
+            if t[1] == "dict":
+                return ("dict", None, None)
+            return ({"set": "set", "list": "list", "gen": "iter"}[t[1]], self.elem_type(t))
         if h == "attr":
             bt = self.typeof(t[1])
             if isinstance(bt, tuple) and bt[0] == "cls":
@@ -216,6 +218,12 @@ class Evaluator:
                         if t[2] in k.methods and k.methods[t[2]].is_property:
                             f = k.methods[t[2]]
                             return self.parse_ann(f.module, f.node.returns)
+                    # the attribute is declared by subclasses only (the access sits under an isinstance test):
+                    # class-hierarchy analysis -- accept when every declaring subclass gives the same annotation
+                    anns = {self.parse_ann(k.module, k.fields[t[2]]) for k in c.all_subclasses() if t[2] in k.fields}
+                    anns.discard(None)
+                    if len(anns) == 1:
+                        return next(iter(anns))
             return None
         if h == "ite":
             a, b = self.typeof(t[2]), self.typeof(t[3])
@@ -235,6 +243,32 @@ class Evaluator:
                 return rt[1]
         if h == "orelse":
             return self.typeof(t[1]) or self.typeof(t[2])
+        return None
+
+    def elem_type(self, t: Term, depth: int = 0) -> Any:
+        """Element type of a collection term, where it follows from the element types of the collections it is built from."""
+        if depth > 12:
+            return None
+        h = t[0]
+        if t in self.types:
+            typ = self.types[t]
+            if isinstance(typ, tuple) and typ and typ[0] in ("set", "frozenset", "list", "iter", "tuple") and len(typ) > 1:
+                return typ[1]
+            return None
+        if h in ("setof", "copyof"):
+            return self.elem_type(t[1], depth + 1)
+        if h in ("inter", "diff"):
+            return self.elem_type(t[1], depth + 1)
+        if h == "union":
+            ts = [self.elem_type(x, depth + 1) for x in t[1:]]
+            return ts[0] if ts and all(x == ts[0] for x in ts) else None
+        if h == "comp" and t[1] in ("set", "list", "gen") and len(t[3]) == 1 and t[2] == t[3][0][0] and t[2][0] == "var":
+            # a filter: {x for x in S if ...}
+            return self.elem_type(t[3][0][1], depth + 1)
+        if h in ("attr", "call", "meth"):
+            typ = self.typeof(t) if h == "attr" else None
+            if isinstance(typ, tuple) and typ and typ[0] in ("set", "frozenset", "list", "iter", "tuple") and len(typ) > 1:
+                return typ[1]
         return None
 
     def cls_of(self, t: Term) -> Cls | None:
@@ -1890,7 +1924,7 @@ class Evaluator:
                     root = root.value if not isinstance(root, ast.Call) else root.func
                 s2.notes = s2.notes + (("external-mutation", recv, name, tuple(args), tuple(sorted(kwargs.items())), line),)
                 if isinstance(root, ast.Name) and root.id in s2.env:
-                    s2.env[root.id] = self._add_effect(s2.env[root.id], ("deep", unparse(base), name, tuple(args)))
+                    s2.env[root.id] = self._add_effect(s2.env[root.id], ("deep", self._access_path(base, state, func), name, tuple(args)))
                 return [(s2, NONE)]
         # CHA fallback: unique repo method of that name
         cands = [m for m in self.model.methods_by_name.get(name, []) if not m.name.startswith("__")]
@@ -1899,6 +1933,27 @@ class Evaluator:
             if m.qname in self.primitives or name in self.prim_methods or (m.cls and m.cls.qname in self.opaque_classes):
                 return [(state, self.prim_meth(recv, m, args, kwargs))]
         return [(state, ("meth", recv, name, tuple(args), tuple(sorted(kwargs.items()))))]
+
+    def _access_path(self, base: ast.expr, state: State, func: Func) -> tuple:
+        """Access path from the root variable to the mutated component, without the root's (local) name:
+        `q.target_interventions` -> (('attr','target_interventions'),);  `d[k]` -> (('item', <term of k>),)."""
+        steps = []
+        cur = base
+        while isinstance(cur, (ast.Attribute, ast.Subscript, ast.Call)):
+            if isinstance(cur, ast.Attribute):
+                steps.append(("attr", cur.attr))
+                cur = cur.value
+            elif isinstance(cur, ast.Subscript):
+                try:
+                    k = self.eval1(cur.slice, state, func)
+                except Exception:  # noqa: BLE001
+                    k = unknown("subscript", getattr(cur, "lineno", 0))
+                steps.append(("item", k))
+                cur = cur.value
+            else:
+                steps.append(("call",))
+                cur = cur.func
+        return tuple(reversed(steps))
 
     def _effect_on(self, cur: Term, name: str, args, kwargs) -> Term:
         # functional reading of the common set/list mutators
